@@ -12,26 +12,27 @@ def keepsGoing {α : Type} : Except Err α → Prop
 
 /-- `w'` extends `w`: same events plus a suffix, counter in step -/
 def Extends (w w' : World) : Prop :=
-  ∃ suf, w'.events = w.events ++ suf ∧ w'.delivered = w.delivered + suf.length
+  ∃ suf, w'.events = w.events ++ suf ∧ w'.delivered = w.delivered + suf.length ∧ w.anon ≤ w'.anon
 
-theorem Extends.refl (w : World) : Extends w w := ⟨[], by simp, by simp⟩
+theorem Extends.refl (w : World) : Extends w w := ⟨[], by simp, by simp, Nat.le_refl _⟩
 
 theorem Extends.trans {a b c : World} (h1 : Extends a b) (h2 : Extends b c) : Extends a c := by
-  obtain ⟨s1, e1, d1⟩ := h1
-  obtain ⟨s2, e2, d2⟩ := h2
-  exact ⟨s1 ++ s2, by simp [e2, e1], by simp [d2, d1]; omega⟩
+  obtain ⟨s1, e1, d1, a1⟩ := h1
+  obtain ⟨s2, e2, d2, a2⟩ := h2
+  exact ⟨s1 ++ s2, by simp [e2, e1], by simp [d2, d1]; omega, Nat.le_trans a1 a2⟩
 
-/-- a step that leaves `events` and `delivered` alone -/
-theorem Extends.of_eq {w w' : World} (he : w'.events = w.events) (hd : w'.delivered = w.delivered) :
-    Extends w w' := ⟨[], by simp [he], by simp [hd]⟩
+/-- a step that leaves `events` and `delivered` alone (and does not lower the anonymous-id counter) -/
+theorem Extends.of_eq {w w' : World} (he : w'.events = w.events) (hd : w'.delivered = w.delivered)
+    (ha : w.anon ≤ w'.anon := by first | exact Nat.le_refl _ | (simp; done) | omega) :
+    Extends w w' := ⟨[], by simp [he], by simp [hd], ha⟩
 
 theorem deliver_extends (env : Env) (w : World) (e : Event) : Extends w (deliver env w e).1 := by
   simp only [deliver]
   split
   · exact Extends.refl w
   · split
-    · exact ⟨[e], rfl, rfl⟩
-    · exact ⟨[e], rfl, rfl⟩
+    · exact ⟨[e], rfl, rfl, Nat.le_refl _⟩
+    · exact ⟨[e], rfl, rfl, Nat.le_refl _⟩
 
 theorem deliver_extends' {env : Env} {w w' : World} {e : Event} {r : Option Err}
     (h : deliver env w e = (w', r)) : Extends w w' := by
@@ -107,7 +108,10 @@ theorem interp_extends (env : Env) {α : Type} (p : Prog α) : ∀ w, Extends w 
     split
     · exact Extends.refl w
     · exact (Extends.of_eq rfl rfl).trans (ih _)
-  | fresh k ih => intro w; simp only [interp]; exact (Extends.of_eq rfl rfl).trans (ih _ _)
+  | fresh k ih =>
+    intro w; simp only [interp]
+    have h1 : Extends w { w with anon := w.anon + 1 } := ⟨[], by simp, by simp, Nat.le_succ _⟩
+    exact h1.trans (ih _ _)
   | bounded ts body k ihb ihk =>
     intro w; simp only [interp]
     have hb := ihb { w with buf := { tokbuf := ts.map w.toTok, lex := { rest := [] }, bounded := true } }
